@@ -49,6 +49,11 @@ structure Call where
   res : Option Res               -- `none`: the caller is still waiting
   group : Option Nat             -- `multi_call` group
   forward : Option Nat           -- `call_and_forward` target actor
+  /-- the id of the port whose RECEIVING half this caller awaits (`let (tx, rx) = oneshot()`:
+  `tx` travels in the message as port `p`, the caller keeps `rx`). The caller's result is read
+  from the channel of port `rx` — NOT from its own record — so a cross-wired caller (`rx ≠ p`)
+  is expressible; `C09.caller_reads_own_port` proves it never happens. -/
+  rx : Nat
   deriving Repr, DecidableEq
 
 inductive Item where
@@ -80,9 +85,11 @@ structure S where
   calls : List Call
   groups : Nat                   -- number of multi_call groups created
   sups : List Sup := []
+  /-- ghost history: every `RpcReplyPort::send` that was performed, in order: (port id, value) -/
+  sent : List (Nat × Nat) := []
   deriving Repr
 
-def init : S := { now := 0, actors := [], calls := [], groups := 0, sups := [] }
+def init : S := { now := 0, actors := [], calls := [], groups := 0, sups := [], sent := [] }
 
 /-- what the callee's handler does with a dequeued call -/
 inductive Act where
@@ -149,8 +156,33 @@ def deliverForwards (before after : List Call) (actors : List Actor) : List Acto
   newly.foldl (fun acts (f, v) =>
     acts.modify f (fun x => if x.alive && !x.draining then { x with mailbox := x.mailbox ++ [.fwd v] } else x)) actors
 
-def resolve (s : S) : S :=
+/-- the caller-local reading (each caller looks at the channel in its OWN record): what `resolve`
+amounts to once `rx = p` is known (`Lemmas: resolve_eq_local`) -/
+def resolveLocal (s : S) : S :=
   let calls' := s.calls.map (resolveCall s.now)
+  { s with calls := calls', actors := deliverForwards s.calls calls' s.actors }
+
+/-- state of the channel of port `q`, as its receiver sees it -/
+def portLoc (calls : List Call) (q : Nat) : Loc :=
+  match calls[q]? with
+  | some c => c.loc
+  | none => .dropped
+
+/-- A waiting caller polls the receiving half it holds — the channel of port `c.rx`. -/
+def resolveVia (now : Nat) (calls : List Call) (c : Call) : Call :=
+  match c.res with
+  | some _ => c
+  | none =>
+    match portLoc calls c.rx with
+    | .replied v => { c with res := some (.success v) }
+    | .dropped => { c with res := some .senderError }
+    | _ =>
+      match c.deadline with
+      | some d => if d ≤ now then { c with res := some .timeout } else c
+      | none => c
+
+def resolve (s : S) : S :=
+  let calls' := s.calls.map (resolveVia s.now s.calls)
   { s with calls := calls', actors := deliverForwards s.calls calls' s.actors }
 
 /-- drop every port located in `a`'s mailbox or held by `a` -/
@@ -239,10 +271,10 @@ def sendCall (s : S) (a : Nat) (timeout group forward : Option Nat) : S × Bool 
   let p := s.calls.length
   let dl := timeout.map (· + s.now)
   if accepting s a then
-    ({ s with calls := s.calls ++ [⟨a, dl, .mailbox a, none, group, forward⟩],
+    ({ s with calls := s.calls ++ [⟨a, dl, .mailbox a, none, group, forward, p⟩],
               actors := s.actors.modify a (fun x => { x with mailbox := x.mailbox ++ [.call p] }) }, true)
   else
-    ({ s with calls := s.calls ++ [⟨a, dl, .dropped, some .sendErr, group, forward⟩] }, false)
+    ({ s with calls := s.calls ++ [⟨a, dl, .dropped, some .sendErr, group, forward, p⟩] }, false)
 
 /-- `multi_call`: send in order, stop at the first failing send and abandon the ports already sent. -/
 def sendMulti (s : S) (g : Nat) (timeout : Option Nat) : List Nat → S
@@ -253,9 +285,14 @@ def sendMulti (s : S) (g : Nat) (timeout : Option Nat) : List Nat → S
     else { s1 with calls := s1.calls.map (fun c =>
             if c.group == some g && c.res == none then { c with res := some .abandoned } else c) }
 
+/-- `RpcReplyPort::send(v)` on port `p`: the value is written into the channel (and recorded in
+the ghost history of sends) -/
+def replyOn (s : S) (p v : Nat) : S :=
+  { setCall s p (fun c => { c with loc := .replied v }) with sent := s.sent ++ [(p, v)] }
+
 def applyAct (s : S) (p : Nat) (holder : Nat) (act : Act) : S :=
   match act with
-  | .reply v => setCall s p (fun c => { c with loc := .replied v })
+  | .reply v => replyOn s p v
   | .drop => setCall s p (fun c => { c with loc := .dropped })
   | .keep => setCall s p (fun c => { c with loc := .actor holder })
   | .detach => setCall s p (fun c => { c with loc := .detached })
@@ -283,12 +320,12 @@ def stepCore (s : S) : Op → S
     match s.calls[p]? with
     | some c =>
       (match c.loc, act with
-       | .actor _, .reply v => setCall s p (fun c => { c with loc := .replied v })
-       | .detached, .reply v => setCall s p (fun c => { c with loc := .replied v })
+       | .actor _, .reply v => replyOn s p v
+       | .detached, .reply v => replyOn s p v
        | .actor _, .drop => setCall s p (fun c => { c with loc := .dropped })
        | .detached, .drop => setCall s p (fun c => { c with loc := .dropped })
        -- the supervisor takes the port out of a state it stashed (`BoxedState::take`)
-       | .event a, .reply v => if supStashed s.sups a then setCall s p (fun c => { c with loc := .replied v }) else s
+       | .event a, .reply v => if supStashed s.sups a then replyOn s p v else s
        | .event a, .drop => if supStashed s.sups a then setCall s p (fun c => { c with loc := .dropped }) else s
        | _, _ => s)
     | none => s
